@@ -41,7 +41,7 @@ func deduceMsgType(msg interface{}, typ reflect.Type) MessageType {
 	if _, ok := msg.(google.Message); ok {
 		return MessageTypeGoogle
 	}
-	if typ.Kind() != reflect.Ptr {
+	if typ == nil || typ.Kind() != reflect.Ptr {
 		return MessageTypeUnknown
 	}
 	// does the message satisfy Gogo's csproto.Message interface
@@ -51,6 +51,8 @@ func deduceMsgType(msg interface{}, typ reflect.Type) MessageType {
 		if gogo.MessageName(gogoMsg) != "" {
 			return MessageTypeGogo
 		}
+		return MessageTypeGoogleV1
 	}
-	return MessageTypeGoogleV1
+	// a pointer to something that is not a Protobuf message at all
+	return MessageTypeUnknown
 }
